@@ -13,11 +13,14 @@
   finiteness check": where they do — today's source, `C18_tag_numbers_finite_checked` — every tag yields keywords
   encoding/json can print (`C18_tags_serialisable`); where they do not (the code before 068180d) `minimum=NaN` /
   `maximum=Inf` make the schema unserialisable (`C18_tag_nonfinite_witness`).
+  Registration histories (`Mcp.Model.SchemaRegistry`): the registry holds, for every name, the descriptor registered last,
+  whole (`C18_registry_holds_last_registered`; a merging registry does not: `C18_registry_merge_witness`).
   Termination of the three generators is Lean's own termination check of their transcriptions in `Mcp.Model.Schema`
   (structural recursion on the type, fuel only for unfolding a named type; no `partial`).
 -/
 import Mcp.Model.Schema
 import Mcp.Model.SchemaTags
+import Mcp.Model.SchemaRegistry
 namespace Mcp.Props.C18
 open Mcp.Str Mcp.Schema
 
@@ -1078,6 +1081,109 @@ theorem C18_tag_nonfinite_witness :
     (tagKeywords .checked .float t!"minimum=NaN;maximum=Inf") = {} ∧
     (tagKeywords .checked .float t!"default=-inf") = { dflt := some (.str t!"-inf") } := by decide
 
+/-! ## registration histories: the registry holds the descriptor registered last, whole -/
+
+private theorem lookup_regSet {α : Type} (name n : Text) (d : α) (reg : List (Text × α)) :
+    (regSet name d reg).lookup n = if n == name then some d else reg.lookup n := by
+  induction reg with
+  | nil =>
+    simp only [regSet, List.lookup]
+    by_cases h : n = name
+    · simp [h]
+    · have : (n == name) = false := by simpa using h
+      simp [this]
+  | cons kv r ih =>
+    obtain ⟨k, v⟩ := kv
+    simp only [regSet]
+    by_cases hk : k = name
+    · subst hk
+      simp only [beq_self_eq_true, ite_true, List.lookup]
+      by_cases h : n = k
+      · simp [h]
+      · have : (n == k) = false := by simpa using h
+        simp [this]
+    · have hk' : (k == name) = false := by simpa using hk
+      simp only [hk', Bool.false_eq_true, ite_false, List.lookup]
+      by_cases h : n = k
+      · subst h
+        have : (n == name) = false := by simpa using hk
+        simp [this]
+      · have h' : (n == k) = false := by simpa using h
+        simp only [h']
+        exact ih
+
+private theorem lookup_regErase {α : Type} (name n : Text) (reg : List (Text × α)) :
+    (regErase name reg).lookup n = if n == name then none else reg.lookup n := by
+  induction reg with
+  | nil => simp [regErase, List.lookup]
+  | cons kv r ih =>
+    obtain ⟨k, v⟩ := kv
+    simp only [regErase]
+    by_cases hk : k = name
+    · subst hk
+      simp only [beq_self_eq_true, ite_true]
+      rw [ih]
+      by_cases h : n = k
+      · simp [h]
+      · have : (n == k) = false := by simpa using h
+        simp [this, List.lookup]
+    · have hk' : (k == name) = false := by simpa using hk
+      simp only [hk', Bool.false_eq_true, ite_false, List.lookup]
+      by_cases h : n = k
+      · subst h
+        have : (n == name) = false := by simpa using hk
+        simp [this]
+      · have h' : (n == k) = false := by simpa using h
+        simp only [h']
+        exact ih
+
+private theorem lookup_regStep {α : Type} (reg : List (Text × α)) (op : RegOp α) (n : Text) :
+    (regStep reg op).lookup n = lastOp n (reg.lookup n) op := by
+  cases op with
+  | register name d =>
+    simp only [regStep, lastOp]
+    by_cases he : name = []
+    · subst he; simp
+    · have he' : (name == []) = false := by simpa using he
+      simp only [he', Bool.false_eq_true, ite_false, lookup_regSet]
+      by_cases h : n = name
+      · subst h; simp [he]
+      · have h1 : (n == name) = false := by simpa using h
+        have h2 : (name == n) = false := by simpa using (fun e : name = n => h e.symm)
+        simp [h1, h2]
+  | unregister name =>
+    simp only [regStep, lastOp, lookup_regErase]
+    by_cases h : n = name
+    · subst h; simp
+    · have h1 : (n == name) = false := by simpa using h
+      have h2 : (name == n) = false := by simpa using (fun e : name = n => h e.symm)
+      simp [h1, h2]
+
+/-- **The registry holds the last registered descriptor, whole**: after ANY history of registrations and
+    unregistrations, what the registry (hence getTools / tools/list) shows for a name is exactly the descriptor of the
+    most recent registration under that name — every part of it, nothing of an earlier registration — and nothing
+    if the name was unregistered afterwards. Generic in the descriptor type. -/
+theorem C18_registry_holds_last_registered {α : Type} (h : List (RegOp α)) (n : Text) :
+    (regRun h).lookup n = lastRegistered h n := by
+  have : ∀ (h : List (RegOp α)) (reg : List (Text × α)),
+      (h.foldl regStep reg).lookup n = h.foldl (lastOp n) (reg.lookup n) := by
+    intro h
+    induction h with
+    | nil => intro reg; rfl
+    | cons op h ih => intro reg; simp only [List.foldl_cons]; rw [ih, lookup_regStep]
+  exact this h []
+
+/-- a registry that MERGES a re-registration with the previous descriptor (the new one wins where it says something,
+    the parts it leaves unset are inherited) does not have this property: register with an output schema and
+    annotations, register the same name again without — the old output schema, annotations and description are still
+    advertised -/
+theorem C18_registry_merge_witness :
+    let rich : Parts := ⟨t!"first", 1, some 7, some 9⟩
+    let bare : Parts := ⟨[], 2, none, none⟩
+    let h : List (RegOp Parts) := [.register t!"x" rich, .register t!"x" bare]
+    (h.foldl regStepMerge []).lookup t!"x" = some ⟨t!"first", 2, some 7, some 9⟩ ∧
+    lastRegistered h t!"x" = some bare ∧ (regRun h).lookup t!"x" = some bare := by decide
+
 /-! ## non-vacuity -/
 
 /-- the fragment contains a type with tags, omitempty, `-`, jsonschema `required`, pointers, slices, arrays, maps and
@@ -1112,6 +1218,11 @@ example : ((genDefsDoc [] Ex.tTwins).defs.map (·.1)) = [t!"Type0x0", t!"Type0x1
     ((genDefsDoc [] Ex.tTwins).defs.lookup t!"Type0x2").map propertyNames = some [t!"max"] ∧
     ((genDefsDoc [] Ex.tTwins).defs.lookup t!"Type0x4").map propertyNames = some [t!"codes"] ∧
     validatesDoc (genDefsDoc [] Ex.tTwins) (encodeFull [] Ex.tTwins Ex.vTwins) = true := by decide
+
+/-- a registration history with a re-registration that has fewer parts, an unregistration and a late registration -/
+example : regRun [RegOp.register t!"x" (⟨t!"d", 1, some 7, some 9⟩ : Parts), .register t!"y" ⟨[], 3, none, none⟩, .register t!"x" ⟨[], 2, none, none⟩,
+      .unregister t!"y", .register t!"z" ⟨t!"e", 4, some 8, none⟩, .register [] ⟨[], 0, none, none⟩] =
+    [(t!"x", ⟨[], 2, none, none⟩), (t!"z", ⟨t!"e", 4, some 8, none⟩)] := by decide
 
 /-- `C18_refs_resolve` applies to recursive environments, and the recursive documents do contain references -/
 example : cleanEnv Ex.envList = true ∧ (genDefsDoc Ex.envList Ex.tList).refs = [t!"#/$defs/main.List", t!"#/$defs/main.List"] ∧
